@@ -6,6 +6,7 @@
 #include "plan.h"
 
 #include <algorithm>
+#include <ctype.h>
 #include <errno.h>
 
 namespace sim {
@@ -51,12 +52,45 @@ std::string pick_instr(Rng &r) {
 std::string pick_filler(Rng &r) { return corpus_fillers().empty() ? std::string("") : line_text(r.pick(corpus_fillers())); }
 std::string pick_reject(Rng &r) { return corpus_rejects().empty() ? std::string("bogus rax") : line_text(r.pick(corpus_rejects())); }
 
+// another spelling of the same line: case, blanks, tabs, CR before the line end, a trailing comment.
+// What the respelt line yields alone is established by the isolated-line oracle like for any other line.
+std::string respell(Rng &r, const std::string &line) {
+  if (line.empty() || line.find(';') != std::string::npos || line.find(':') != std::string::npos || line.size() > 60) return line;
+  std::string s = line;
+  unsigned w = (unsigned)r.below(8);
+  if (w == 0) {
+    for (char &c : s) c = (char)toupper((unsigned char)c);
+  } else if (w == 1) {
+    s = std::string((size_t)r.range(1, 6), ' ') + s;
+  } else if (w == 2) {
+    s = "\t" + s;
+  } else if (w == 3) {
+    std::string t;
+    for (char c : s) {
+      t.push_back(c);
+      if (c == ',') t += "  ";
+    }
+    s = t;
+  } else if (w == 4) {
+    s += std::string((size_t)r.range(1, 4), ' ');
+  } else if (w == 5) {
+    s += "\r";  // CR LF line end
+  } else if (w == 6) {
+    s += " ; " + std::string(r.coin() ? "x1 <- x2" : "ret");
+  } else {
+    // capitalised mnemonic only
+    s[0] = (char)toupper((unsigned char)s[0]);
+  }
+  return s;
+}
+
 // n instruction lines with fillers sprinkled in (1 in filler_den), optionally one rejected line
 std::vector<std::string> gen_program(Rng &r, int n, unsigned filler_den, int reject_where /* -1 none, 0 first, 1 middle, 2 last */) {
   std::vector<std::string> v;
+  const bool respelling = r.chance(1, 3);
   for (int i = 0; i < n; i++) {
     if (filler_den && r.chance(1, filler_den)) v.push_back(pick_filler(r));
-    v.push_back(pick_instr(r));
+    v.push_back(respelling && r.chance(1, 4) ? respell(r, pick_instr(r)) : pick_instr(r));
   }
   if (filler_den && r.chance(1, filler_den)) v.push_back(pick_filler(r));
   if (reject_where >= 0) {
@@ -1254,6 +1288,8 @@ void gen_c17(Gen &g) {
 }
 
 }  // namespace
+
+std::string respell_line(Rng &r, const std::string &line) { return respell(r, line); }
 
 void gen_c18(Plan &p, Rng &r, bool thorough);
 void gen_c20(Plan &p, Rng &r, bool thorough);
